@@ -32,7 +32,7 @@ for W in (2, 4, 8):
     for ip in (0, 1):
         ob(f"sb{W}b_symstr_{'in' if ip else 'out'}", "C06", entry=f"h_sb{W}b", enforce=f"DFKsb{W}b", mode="bounded",
            bound=f"num_elm <= 4, all strides {W}..65535" + (" (equal)" if ip else ""), unwind=5,
-           defines=["NMAX=4", f"INPLACE={ip}"], tier="thorough", **SW)
+           defines=["NMAX=4", f"INPLACE={ip}", "TIGHT"], tier="thorough", **SW)
 
 SE = dict(unit="dfconv_set_u.c", file="hdf/src/dfconv.c")
 ob("DFKsetNT", "C06", entry="h_setnt", enforce="DFKsetNT", **SE)
